@@ -7,6 +7,97 @@ import props.execcommon as ex
 PID = "C12"
 
 
+STEP_HISTORY = ["A", "L", "E", "A", "L", "A"]
+
+
+def passloop_model(out, tier):
+    """PassLoop.tla: exhaustive over all graphs up to the bound; the two pre-repair schemes must be refuted."""
+    info = {}
+    res = run_tlc("PassLoop", cfg="PassLoop", workers=8, heap="8g", timeout=1500)
+    out.add_tlc(res)
+    if res.rc != 0:
+        raise ToolError("PassLoop.tla: the as-built model of the value-analysis loop violates its design properties:\n"
+                        + res.out[-2500:])
+    info["PassLoop N=3 (all graphs with out-degree <= 2, gen/kill over one fact, 3 runs with an edge cut between)"] = \
+        {"distinct_states": res.distinct, "result": "SweepBound, FixedPoint, Stable, AllVisited, Terminates hold"}
+    for cfg, what in (("PassLoop_old1", "FixedPoint"), ("PassLoop_old2", "")):
+        r = run_tlc("PassLoop", cfg=cfg, workers=8, heap="8g", timeout=1500)
+        out.add_tlc(r)
+        refuted = "is violated" in r.out
+        info[cfg + " (negative control: the scheme before 35309c1 / with the wait rule off)"] = \
+            ("refuted: " + " ".join(l.strip() for l in r.out.splitlines() if "is violated" in l)) if refuted else "not refuted at this bound"
+        if cfg == "PassLoop_old1" and not refuted:
+            raise ToolError("negative control PassLoop_old1 was not refuted: the model does not distinguish the repaired scheme")
+    if tier == "thorough":
+        r = run_tlc("PassLoop", cfg="PassLoop_n4", workers=12, heap="24g", timeout=7200)
+        out.add_tlc(r)
+        if r.rc != 0:
+            raise ToolError("PassLoop.tla (N=4): design properties violated:\n" + r.out[-2500:])
+        info["PassLoop N=4 (2 runs)"] = {"distinct_states": r.distinct, "result": "SweepBound, FixedPoint, Stable, AllVisited hold"}
+    return info
+
+
+def steps_check(out, rvh, wd, texts):
+    hc = [{"id": i + 1, "mode": "steps", "text": t, "history": STEP_HISTORY} for i, t in enumerate(texts)]
+    tp, evs = run_harness_par(rvh, hc, wd, "steps", timeout_ms=30000, shards=8)
+    trace, owner = [], []
+    nprog = 0
+    for i, e in enumerate(evs):
+        if e["ev"] != "steps":
+            continue
+        nprog += 1
+        trace.append({"ev": "program", "gid": len(trace) + 1, "prog": i + 1})
+        owner.append(i)
+        for x in e["events"]:
+            x = dict(x)
+            x["gid"] = len(trace) + 1
+            x["prog"] = i + 1
+            trace.append(x)
+            owner.append(i)
+    # cut only at program boundaries: the trace machine restarts per chunk
+    chunks, cur = [], []
+    for x in trace:
+        if x["ev"] == "program" and len(cur) > 6000:
+            chunks.append(cur)
+            cur = []
+        cur.append(x)
+    if cur:
+        chunks.append(cur)
+    verdicts, drift, runs = [], [], []
+    from concurrent.futures import ThreadPoolExecutor
+
+    def one(k):
+        path = os.path.join(wd, f"steps.chunk.{k}.ndjson")
+        write_ndjson(path, chunks[k])
+        r = tlc_validate("Trace_PassLoop", path, heap="6g", workdir=os.path.join(WORK, "tlc", f"Trace_PassLoop.{k}"))
+        os.remove(path)
+        return r
+    with ThreadPoolExecutor(max_workers=4) as ex:
+        results = list(ex.map(one, range(len(chunks))))
+    for vv, acc, res in results:
+        if not acc:
+            raise ToolError("Trace_PassLoop: trace not consumed")
+        out.add_tlc(res)
+        for x in vv:
+            x["text"] = texts[x["prog"] - 1]
+            x["id"] = x["prog"]
+        verdicts += vv
+        drift += res.tagged("DRIFT")
+        runs += res.tagged("RUN")
+    for d in drift:
+        out.drift.append({"key": d["key"], "program": texts[d["prog"] - 1][:400]})
+    dk = {}
+    for d in drift:
+        dk[d["key"]] = dk.get(d["key"], 0) + 1
+    if dk:
+        out.notes.append("SPEC-DRIFT (the code no longer follows PassLoop.tla at these steps; not a violation): " + json.dumps(dk))
+    info = {"programs": nprog, "events": len(trace), "pass_runs": len(runs),
+            "reruns_compared": sum(1 for r in runs if r["rerun"]),
+            "runs_with_promoted_roots": sum(1 for r in runs if r["roots"] > 0),
+            "max_sweeps": max([r["sweeps"] for r in runs] or [0]), "drift": dk, "history": STEP_HISTORY}
+    return verdicts, info
+
+
 def run(tier, replay=None):
     out = Outcome(PID, tier)
     wd = os.path.join(WORK, PID)
@@ -52,6 +143,21 @@ def run(tier, replay=None):
                 trace.append({"ev": "extra", "id": len(trace) + 1, "pass": st["pass"], "ok": st["ok"],
                               "parts": st["parts"], "sweeps": st["sweeps"], "hist": r["hist"]})
                 owner.append(i)
+    # ---- as-built layer: the iteration scheme of the value analysis, model-checked over all small graphs
+    model = {}
+    if not replay:
+        model = passloop_model(out, tier)
+    # ---- as-built layer bound to the code: step traces of the real pass loops against the same operators
+    nsteps = 120 if tier == "quick" else 1500
+    if replay:
+        stexts = texts
+    else:
+        r = rng("c12-steps")
+        stexts = list(corpus.LOOP_PROGRAMS) + [t for t in texts if t not in corpus.LOOP_PROGRAMS]
+        head, rest = stexts[:len(corpus.LOOP_PROGRAMS)], stexts[len(corpus.LOOP_PROGRAMS):]
+        r.shuffle(rest)
+        stexts = [t for t in head if t] + rest[:nsteps]
+    sv, sinfo = steps_check(out, rvh, wd, stexts)
     v, ress = validate_chunks("Trace_Stable", trace, wd, "stable.chunk", chunk=20000, heap="8g")
     # chunks restart the state machine: a chunk boundary inside a program only loses a comparison, never adds one
     for r in ress:
@@ -60,6 +166,7 @@ def run(tier, replay=None):
         x["text"] = texts[owner[x["id"] - 1]]
         x["event"] = {k: trace[x["id"] - 1].get(k) for k in ("ev", "pass", "hist")}
     out.add_verdicts(v)
+    out.add_verdicts(sv)
     maxsw = {}
     for t in trace:
         for s in t.get("sweeps", []):
@@ -70,12 +177,12 @@ def run(tier, replay=None):
     out.assumptions += [
         "the harness sends a 64-bit keyed digest (with length) of each observable group instead of its text (equality is all the specification asks); a replay sends the text",
         "observables: node list, edges, value facts, live sets, u_def, function table / owners, lint diagnostics (canonical JSON per group)",
-        "sweep bound 2*N + 3 per pass run (N = number of Cfg nodes); sweep counters come from the rva_verif hooks",
+        "sweep bound 4*N + 3 per pass run (N = number of Cfg nodes; PassLoop.tla reaches 4*N - 1 on chains of dead loops); sweep counters come from the rva_verif hooks",
         "a chunk boundary of the validated trace may drop one comparison, never add one",
     ]
     return out.finish(extra_cov={
         "programs": len(texts), "histories": len(hists), "analyses": nruns, "trace_events": len(trace),
-        "max_sweeps_seen": maxsw, "exhaustive": False,
+        "max_sweeps_seen": maxsw, "exhaustive": False, "as_built_model": model, "step_traces": sinfo,
         "evaluations": len(trace), "distinct_nontrivial": len(texts) * len(hists),
         "rule": "every history in {A,E,L}^(1..3) (39, exhaustive from Gen_Hist) x programs from Gen_Values / Gen_Flow (tlc -simulate) and the corpus incl. loops / irreducible flow / recursion; one fresh analysis of the same parsed program per history",
     })
